@@ -253,7 +253,23 @@ def check_ctor_forwarding(run, rule='R5'):
         for call in calls:
             got = _check_forwarded(call)
             subj = '%s (ctor %s)' % (cn, init.key)
-            if got == want or (want == 'forwarded' and got == 'default'):
+            if got == want and want == 'const:False':
+                # validation is switched off for a class whose only invariant is the shape of its elements: _import then
+                # returns ANY array, so the shape must be re-established on the stored data before the constructor returns
+                guard = None
+                for st in own_walk(init.node):
+                    if isinstance(st, ast.If) and any(n is call for n in ast.walk(st.test)):
+                        for y in st.body:
+                            if isinstance(y, (ast.If, ast.Assert)) and ('.shape' in ast.unparse(y.test) or 'isvalid(' in ast.unparse(y.test)) \
+                                    and 'data' in ast.unparse(y.test):
+                                guard = y
+                if guard is not None:
+                    run.holds(rule, subj, 'check -> arghandler', 'check=False, and the shape of every stored element is tested afterwards', f=init, node=call)
+                else:
+                    run.violation(rule, subj, 'check -> arghandler', 'the constructor passes check=False to arghandler, which makes _import return any array '
+                                  'unchanged, and never tests the shape of the stored elements: an ndarray of the wrong length or '
+                                  'dimension becomes a value of the object (the list form of the same data is rejected)', f=init, node=call)
+            elif got == want or (want == 'forwarded' and got == 'default'):
                 run.holds(rule, subj, 'check -> arghandler', 'arghandler receives check=%s' % got, f=init, node=call)
             elif want == 'default' and got == 'forwarded':
                 run.holds(rule, subj, 'check -> arghandler', 'arghandler receives the constructor\'s check', f=init, node=call)
